@@ -15,6 +15,7 @@
 package ctfe
 
 import (
+	"bytes"
 	"context"
 	"crypto/sha256"
 	"fmt"
@@ -171,13 +172,22 @@ func (s *indirectIssuanceChainService) FixLogLeaf(ctx context.Context, leaf *tri
 func (s *indirectIssuanceChainService) getByHash(ctx context.Context, hash []byte) ([]byte, error) {
 	// Return if found in cache.
 	chain, err := s.cache.Get(ctx, hash)
-	if chain != nil || err != nil {
-		return chain, err
+	if err != nil {
+		return nil, err
+	}
+	if chain != nil {
+		if err := checkIssuanceChainHash(chain, hash); err != nil {
+			return nil, err
+		}
+		return chain, nil
 	}
 
 	// Find in storage if cache miss.
 	chain, err = s.storage.FindByKey(ctx, hash)
 	if err != nil {
+		return nil, err
+	}
+	if err := checkIssuanceChainHash(chain, hash); err != nil {
 		return nil, err
 	}
 
@@ -215,6 +225,16 @@ func (s *indirectIssuanceChainService) add(ctx context.Context, chain []byte) ([
 	}(ctx, hash, chain)
 
 	return hash, nil
+}
+
+// checkIssuanceChainHash verifies that a chain read back from the cache or the
+// storage is the one that was stored under hash, so that corrupted chain data is
+// reported as an error rather than served.
+func checkIssuanceChainHash(chain, hash []byte) error {
+	if !bytes.Equal(issuanceChainHash(chain), hash) {
+		return fmt.Errorf("issuance chain does not match its hash %x", hash)
+	}
+	return nil
 }
 
 // issuanceChainHash returns the SHA-256 hash of the chain.
